@@ -147,7 +147,7 @@ theorem Inv.created_not_mem {s} (h : Inv s) : s.created ∉ s.all := by
 
 /-! ### preservation -/
 
-theorem inv_get {s s' g ok o} (h : Inv s) (e : get s g ok = .ok (s', o)) : Inv s' := by
+theorem inv_get {s s' g c o} (h : Inv s) (e : get s g c = .ok (s', o)) : Inv s' := by
   unfold get at e
   split at e
   · cases e
@@ -181,6 +181,7 @@ theorem inv_get {s s' g ok o} (h : Inv s) (e : get s g ok = .ok (s', o)) : Inv s
       · simp only [List.map_cons, List.nodup_cons]
         exact ⟨hk, h.keys⟩
     · cases e; exact h
+    · cases e; exact ⟨h.perm, h.keys⟩
 
 theorem inv_put {s s' g o} (h : Inv s) (e : put s g = .ok (s', o)) : Inv s' := by
   unfold put at e
@@ -251,7 +252,7 @@ theorem inv_dropPool {s s' o} (h : Inv s) (e : dropPool s = .ok (s', o)) : Inv s
 
 theorem inv_step {s s' st o} (h : Inv s) (e : step s st = .ok (s', o)) : Inv s' := by
   cases st with
-  | get g ok => exact inv_get h e
+  | get g c => exact inv_get h e
   | put g => exact inv_put h e
   | forget g => exact inv_forget h e
   | alloc g t => exact inv_alloc h e
